@@ -14,7 +14,8 @@ import EmbitModel.Driver.SignWith
   No hypothesis about hash functions is needed for validity (only the taproot statement `tweak_is_bip341_output` uses the
   output length of the tagged hash, as Props/C09 does). The driver's environment IS `opsOf` over the executable
   secp256k1 and hashes (`driver_ops_eq`, by `rfl`), so the object corresponded with embit on every run is the object
-  these theorems speak about.
+  these theorems speak about. Since the second audit (A-1) that executable record is `Crypto.secpLawful` (no junk
+  points), for which the curve hypotheses are theorems: Props/C02Z states the driver-level results unconditionally.
 -/
 set_option linter.unusedVariables false
 namespace Embit.Props.C02Y
@@ -211,9 +212,11 @@ theorem added_keypath_sig_bip341 (L : Embit.EcLaws E) (hn : E.n ≤ 2 ^ 256) (hp
 
 /-- the `Ops` instance `sign.run` / `sign.trace` / `sign.view` of the driver run over (and that is compared with embit
     on every run of the check) is `opsOf` over the executable secp256k1, the executable SHA-256 / HMAC / RIPEMD-160 and
-    the RFC 6979 fuel of the driver — by definition -/
+    the RFC 6979 fuel of the driver — by definition. RESTATED after the second audit (A-1): the record is now the lawful
+    record `Crypto.secpLawful` (= `Driver.E`); it was `Crypto.secpOps`, of which `EcLaws` is refutable
+    (`Props/C02Z.old_driver_record_unlawful`). -/
 theorem driver_ops_eq :
-    Driver.SignDrv.concreteOps = opsOf Crypto.secpOps Driver.SignDrv.realHashes Driver.fuel := rfl
+    Driver.SignDrv.concreteOps = opsOf Crypto.secpLawful Driver.SignDrv.realHashes Driver.fuel := rfl
 
 /-- … whose hash fields are the executable reference hashes -/
 theorem driver_hashes :
@@ -231,20 +234,23 @@ theorem write_valid_sound (hs : Hashes) (fuel : Nat) (p : Psbt) (w : Write)
         (fun f leaf => psbtSighash hs.H.sha256 p w.1 f leaf) w.2 :=
   writeValid_sound (opsOf E hs fuel) hs.H rfl p w h
 
-/-- so the validity theorem holds of the driver's runs, under the mathematical assumption that secp256k1 (as
-    implemented in `Crypto.secpOps`) satisfies the curve laws — the only assumption left -/
-theorem driver_added_sigs_valid (L : Embit.EcLaws Crypto.secpOps) (hinf : InfUnique Crypto.secpOps)
+/-- so the validity theorem holds of the driver's runs, given the curve laws of the record the driver evaluates.
+    RESTATED after the second audit (A-1): the hypotheses were about `Crypto.secpOps` (junk points, `EcLaws` refutable —
+    the old statement was vacuous); they are now about `Crypto.secpLawful`, the record the driver evaluates, and both ARE
+    theorems (Props/C08W `secpLawful_ec_laws`, `secpLawful_inf_unique`): `Props/C02Z.driver_added_sigs_valid_unconditional`
+    is this statement with no curve hypothesis. -/
+theorem driver_added_sigs_valid (L : Embit.EcLaws Crypto.secpLawful) (hinf : InfUnique Crypto.secpLawful)
     (signer : Signer Driver.SignDrv.HD) (auth : Option Nat)
     (p p' : Psbt) (n : Nat) (ws : List Write) (h : signWith Driver.SignDrv.concreteOps signer auth p = some (p', n, ws))
     (i : Nat) (s s' : InScope) (hsi : p.inputs[i]? = some s) (hsi' : p'.inputs[i]? = some s')
-    (hkeys : KeysValid (validSecKey Crypto.secpOps) s)
+    (hkeys : KeysValid (validSecKey Crypto.secpLawful) s)
     (sl : Slot) (v : Bytes) (hv : slotValue s' sl = some v) (hnew : slotValue s sl ≠ some v) :
     ∃ u, s.utxo = some u ∧ C02.authorisedFlag auth s.sighashType (isTaprootSpk u.spk) ∧
-      ValidWrite (ecdsaVerifySec Crypto.secpOps) (schnorrVerifyX Crypto.secpOps Crypto.shaOps)
+      ValidWrite (ecdsaVerifySec Crypto.secpLawful) (schnorrVerifyX Crypto.secpLawful Crypto.shaOps)
         Driver.SignDrv.concreteOps s u (C02.effective auth s.sighashType (isTaprootSpk u.spk))
         (fun f leaf => psbtSighash Crypto.sha256 p i f leaf) (sl, v) :=
-  added_sigs_valid_concrete L (by decide) (by decide) hinf Driver.SignDrv.realHashes Driver.fuel signer auth p p' n ws h
-    i s s' hsi hsi' hkeys sl v hv hnew
+  added_sigs_valid_concrete L (by decide +kernel) (by decide +kernel) hinf Driver.SignDrv.realHashes Driver.fuel signer auth
+    p p' n ws h i s s' hsi hsi' hkeys sl v hv hnew
 
 /-! ### non-vacuity -/
 
